@@ -31,7 +31,7 @@ let cstr (s : string) : M.string =
 let rec ostr = function M.EmptyString -> "" | M.String (c, r) -> String.make 1 (char_of_ascii c) ^ ostr r
 
 let fbits s = Int32.float_of_bits (Int32.of_string ("0x" ^ s))
-let bits x = Printf.sprintf "%08lx" (Int32.bits_of_float x)
+let bits x = if x <> x then "7fc00000" else Printf.sprintf "%08lx" (Int32.bits_of_float x)
 let vec s = List.map fbits (split_on ',' s)
 let pvec v = if v = [] then "-" else String.concat "," (List.map bits v)
 let ids s = List.map (fun t -> nat_of_int (int_of_string t)) (split_on ',' s)
@@ -71,7 +71,7 @@ let dump_param with_grad i = function
         (if with_grad then "|g=" ^ pvec p.M.p_grad else "") (String.concat "" st)
 let dump with_grad (s : float M.state) =
   let o = s.M.st_opt in
-  Printf.sprintf "E%s S%s,%s,%s H%s %s" (string_of_n o.M.o_epoch) (bits o.M.o_lr_scale) (bits o.M.o_l2)
+  Printf.sprintf "E%s S=%s,%s,%s H=%s %s" (string_of_n o.M.o_epoch) (bits o.M.o_lr_scale) (bits o.M.o_l2)
     (bits o.M.o_clip) (pvec (hypers o.M.o_alg))
     (String.concat " " (List.mapi (dump_param with_grad) s.M.st_params))
 
@@ -93,6 +93,16 @@ let oracle (t : M.nat) (vals : float list option list) (i : M.nat) : float list 
   | _ -> []
 
 exception Halt of string
+
+(* the iteration order of std::unordered_set<Parameter*> is external behaviour: the C++ driver
+   reports it and the model's registered list is put into that order (it must be a
+   permutation of what the model has registered, otherwise the case fails) *)
+let reorder ord (s : float M.state) : float M.state =
+  if ord = "" then s else
+  let want = List.map int_of_string (split_on ',' ord) in
+  let cur = List.map int_of_nat s.M.st_opt.M.o_reg in
+  if List.sort compare cur <> List.sort compare want then raise (Halt "registered-set-mismatch")
+  else { s with M.st_opt = M.with_reg s.M.st_opt (List.map nat_of_int want) }
 
 let run_case line =
   let ops = List.map String.trim (String.split_on_char ';' line) in
@@ -129,7 +139,9 @@ let run_case line =
               | i :: r -> (match M.add_param fops i !st with Some s' -> st := s'; go r | None -> false) in
             let ok = go (ids l) in
             emit ((if ok then "addm ok " else "addm err ") ^ dump true !st)
-        | ["upd"] -> (match M.update fops !st with
+        | "upd" :: ord ->
+                     st := reorder (String.concat "" ord) !st;
+                     (match M.update fops !st with
                       | Some s' -> st := s'; emit ("upd ok " ^ dump true !st)
                       | None -> raise (Halt "upd err halt"))
         | ["reset"] -> (match M.reset_gradients fops !st with
@@ -144,13 +156,15 @@ let run_case line =
         | ["getcfg"] ->
             emit (Printf.sprintf "cfg u:%s f:%s" (show_cfg string_of_n (M.get_uint_configs !st.M.st_opt))
                     (show_cfg bits (M.get_float_configs !st.M.st_opt)))
-        | ["run"; k; n; _mode; order] ->
+        | "run" :: k :: n :: _mode :: order :: ords ->
             let k = int_of_string k and n = int_of_string n in
-            let reg = !st.M.st_opt.M.o_reg in
+            let ou, orr, ofr = match ords with [a; b; c] -> a, b, c | _ -> "", "", "" in
+            let st_u = reorder ou !st and st_r = reorder orr !st in
+            let reg = (reorder ofr !st).M.st_opt.M.o_reg in
             let show = function Some s -> dump false s | None -> "err" in
-            let u = M.train fops oracle (nat_of_int 0) (nat_of_int (k + n)) !st in
+            let u = M.train fops oracle (nat_of_int 0) (nat_of_int (k + n)) st_u in
             let rsm =
-              match M.train fops oracle (nat_of_int 0) (nat_of_int k) !st with
+              match M.train fops oracle (nat_of_int 0) (nat_of_int k) st_r with
               | None -> None
               | Some sk ->
                 match M.checkpoint sk with
@@ -170,7 +184,7 @@ let run_case line =
                    | Some s -> M.train fops oracle (nat_of_int k) (nat_of_int n) s) in
             emit (Printf.sprintf "run U %s R %s" (show u) (show rsm));
             (match u with Some s -> st := s | None -> ())
-        | ["rung"; _; _; _] -> emit "rung same"
+        | "rung" :: _ -> emit "rung"
         | [] -> ()
         | _ -> emit "badop") rest
     with Halt s -> emit s);
